@@ -53,17 +53,17 @@ package store
 
 //@ func DenseStore.Clear
 //@   serves C04 C15
-//@   requires DInv(s)
+//@   requires DCore(s)
 //@   ensures DEmptyState(s) && arr(s.bins) == old(arr(s.bins)) && cap(s.bins) == old(cap(s.bins)) && s.offset == old(s.offset)
 //@   ensures DInv(s) using ASumEmpty(contents(s.bins), 0, 0)
 //@   modifies s
 
 //@ func DenseStore.resetBins
 //@   serves C04 C05
-//@   requires 0 <= fromIndex - s.offset && toIndex - s.offset < len(s.bins) && fromIndex <= toIndex + 1 && in64(fromIndex - s.offset) && in64(toIndex - s.offset)
+//@   requires (fromIndex <= toIndex ==> 0 <= fromIndex - s.offset && toIndex - s.offset < len(s.bins)) && in64(fromIndex - s.offset) && in64(toIndex - s.offset)
 //@   ensures forall j int :: 0 <= j && j < len(s.bins) ==> s.bins[j] == ((fromIndex - s.offset <= j && j <= toIndex - s.offset) ? 0.0 : old(s.bins[j]))
 //@   modifies arr(s.bins)
-//@   loop 1 invariant fromIndex - s.offset <= i && i <= toIndex - s.offset + 1
+//@   loop 1 invariant fromIndex - s.offset <= i && (fromIndex <= toIndex ==> i <= toIndex - s.offset + 1)
 //@   loop 1 invariant forall j int :: 0 <= j && j < len(s.bins) ==> s.bins[j] == ((fromIndex - s.offset <= j && j < i) ? 0.0 : old(s.bins[j]))
 //@   loop 1 decreases toIndex - s.offset + 1 - i
 
